@@ -32,11 +32,31 @@ RULE = ('seeded generator of (schema, op list): 1-3 entities, 1-3 scalar attribu
 
 
 def correspondence(ctx): return chk.correspondence(ctx, ID)
-def search(ctx, deep): return chk.search(ctx, deep, ID)
-def replay(ctx, data): return chk.replay(ctx, data, ID)
+def _scenarios(cases=None):
+    """tools/session_scenarios.py: fixed multi-step scenarios the history fuzzer does not generate (see its docstring)."""
+    import vlib
+    out = vlib.run_impl('session_scenarios.py', {'family': 'c10', 'cases': cases}, timeout=600)['results']
+    return [vlib.Failure('c10-scenario:' + r['case'], 'a query after the flush does not reflect the changes of the session (%s): %s' % (r['case'], r['detail'][:700]), {'scenario_case': r['case']})
+            for r in out if not r['ok']], len(out)
 
 
-LEVEL_TEXT = ("PARTIAL proof (mechanism only) plus exploration, Stage 1 schema space. EXPLORED on every run: in generated histories on real Pony + SQLite every successful read - attribute, reference, collection members, count(), is_empty(), `in`, E[pk], E.get(attr=v), E.select(attr=v), E.select() - must return what an independent logical reference state of the session says (tools/session_spec.py: all earlier successful modifications applied, flushed or not; queries by a key that two pending objects hold are not judged); reads that raise AssertionError are reported. PROVED (Coq, every well-formed schema and every history of the executable session model that reached no dirty site): after obj.a = v succeeded on a scalar attribute (int or str, unique or not) obj.a reads the stored value (loaded or new object, flushed or not). PROVED additionally for Stage 1 schemas WITHOUT Required references only (C10_scalar_read_except_known, from the cache/database coherence invariant of Proofs/SessionCoh.v): in a clean history a loaded scalar attribute of a loaded or saved object reads as its cached value, and unless the program wrote it in this transaction that value is the one in the object's row of the transaction's database (the row exists unless the object is known by key only); the remembered database value is always the row's value - so a scalar read returns the program's last write or the database value. Stage covered: both theorems Stage 1 (no many-to-many, one-to-one, composite keys); the read-after-write theorem every well-formed Stage 1 schema, the database-value theorem Stage 1 schemas without Required references. PARTIAL (C10_collection_read_partial, every Stage 1 schema): a fully loaded collection is read from the cache alone and the answer is its item list. NOT proved: that a fully loaded collection holds every referring row (statement in Proofs/SessionRefs.v), hence the general statement for references, collections, counts and queries. Defects are refuted by model witnesses stated under source-derived flags (get()/select() by an unsaved object as reference value miss the session\'s own objects - repairs proposed; reading a collection raises AssertionError after a failed auto-flush; an assignment to a seed object is not read back); count() after remove being one too low and the Set.copy assertion were repaired in /repo by 11753a1 (recorded as fixed; the witness is vacuous, a regression theorem states count() = 0); two more are consequences of C11/C12 findings.")
-LEVEL_NOTE = ('Trusted: the reference state, the fuzzer harness, SQLite; for the theorem the Coq kernel and the hand-written session model tied by differential runs. Aggregates, to_dict(), exists(), many-to-many collections and the query result cache are outside the generator.')
+def search(ctx, deep):
+    s = chk.search(ctx, deep, ID)
+    fails, n = _scenarios()
+    s.failures = fails + list(s.failures)
+    s.evaluations += n
+    s.distribution['fixed_scenarios'] = n
+    return s
+
+
+def replay(ctx, data):
+    if 'scenario_case' in data:
+        fails, _ = _scenarios([data['scenario_case']])
+        return fails[0] if fails else None
+    return chk.replay(ctx, data, ID)
+
+
+LEVEL_TEXT = ("PARTIAL proof (mechanism only) plus exploration, Stage 1 schema space. EXPLORED on every run: fixed multi-step scenarios with entity hooks that run a query while a flush is in progress (before_insert / before_update query the pre-flush state, after_insert queries and then modifies what it found; flush by flush(), commit() or the auto-flush of another query): the SAME query after the flush must agree with the rows in the database and the objects' attributes (tools/session_scenarios.py, 12 cases); in generated histories on real Pony + SQLite every successful read - attribute, reference, collection members, count(), is_empty(), `in`, E[pk], E.get(attr=v), E.select(attr=v), E.select() - must return what an independent logical reference state of the session says (tools/session_spec.py: all earlier successful modifications applied, flushed or not; queries by a key that two pending objects hold are not judged); reads that raise AssertionError are reported. PROVED (Coq, every well-formed schema and every history of the executable session model that reached no dirty site): after obj.a = v succeeded on a scalar attribute (int or str, unique or not) obj.a reads the stored value (loaded or new object, flushed or not). PROVED additionally for Stage 1 schemas WITHOUT Required references only (C10_scalar_read_except_known, from the cache/database coherence invariant of Proofs/SessionCoh.v): in a clean history a loaded scalar attribute of a loaded or saved object reads as its cached value, and unless the program wrote it in this transaction that value is the one in the object's row of the transaction's database (the row exists unless the object is known by key only); the remembered database value is always the row's value - so a scalar read returns the program's last write or the database value. Stage covered: both theorems Stage 1 (no many-to-many, one-to-one, composite keys); the read-after-write theorem every well-formed Stage 1 schema, the database-value theorem Stage 1 schemas without Required references. PARTIAL (C10_collection_read_partial, every Stage 1 schema): a fully loaded collection is read from the cache alone and the answer is its item list. NOT proved: that a fully loaded collection holds every referring row (statement in Proofs/SessionRefs.v), hence the general statement for references, collections, counts and queries. Defects are refuted by model witnesses stated under source-derived flags (get()/select() by an unsaved object as reference value miss the session\'s own objects - repairs proposed; reading a collection raises AssertionError after a failed auto-flush; an assignment to a seed object is not read back); count() after remove being one too low and the Set.copy assertion were repaired in /repo by 11753a1 (recorded as fixed; the witness is vacuous, a regression theorem states count() = 0); two more are consequences of C11/C12 findings.")
+LEVEL_NOTE = ('Trusted: the reference state, the fuzzer harness, SQLite; for the theorem the Coq kernel and the hand-written session model tied by differential runs. Aggregates, to_dict(), exists(), many-to-many collections are outside the generator; the query result cache is exercised only by the fixed hook scenarios.')
 TECHNIQUE = 'exploration of generated operation histories on real Pony+SQLite against a logical reference state (property oracle, ddmin shrinking); Coq theorems over the executable session model for the transaction structure / read-your-own-write; vm_compute correspondence model vs implementation'
 DESIGN_REF = 'DESIGN.md section 5, C10 and Appendix A'
